@@ -41,7 +41,7 @@ Definition secondary (prev : point) (L : Z) : point :=
 Inductive event :=
 | Half (prev : point) (run : nat)             (* case a)i: Memory 3, half-counted hysteresis [-|prev|, |prev|] *)
 | Closed (p0 p1 : point) (run : nat)          (* case c)ii: full hysteresis between residuals[-2] and residuals[-1] *)
-| Visit (cur : point) (up : bool) (run : nat). (* the processed load with its stress/strain; up = previous_load < load *)
+| Visit (cur : point) (prev : Z) (run : nat). (* the processed load with its stress/strain, and previous_load *)
 
 (* _hcm_process_sample: the `while True` loop for one load L.  residuals are kept top-first.
    Returns (events, current point, residuals, iz, ir); None = the code would raise IndexError
@@ -82,7 +82,7 @@ Definition sample (c : core) (prev : Z) (run : nat) (L : Z) : option (core * lis
   match step res iz ir lmax L run with
   | Some (evs, cur, res', iz', ir') =>
       Some ((cur :: res', S iz', ir', if lmax <? Z.abs L then Z.abs L else lmax),
-            evs ++ [Visit cur (prev <? L) run])
+            evs ++ [Visit cur prev run])
   | None => None
   end.
 
@@ -164,7 +164,7 @@ Fixpoint records (emin emax : V) (evs : list event) : list hrec :=
   | [] => []
   | Half prev run :: r => rec_half prev run emin emax :: records emin emax r
   | Closed p0 p1 run :: r => rec_closed p0 p1 run emin emax :: records emin emax r
-  | Visit cur up _ :: r => let '(a, b) := lf_update emin emax cur up in records a b r
+  | Visit cur prev _ :: r => let '(a, b) := lf_update emin emax cur (prev <? pL cur) in records a b r
   end.
 
 (* detector.strain_values and the number of them that belong to the first run *)
